@@ -1,5 +1,6 @@
 import Anndb.Model.WalKeys
 import Anndb.Proofs.WalFlush
+import Anndb.Proofs.WalEntries
 import Anndb.Proofs.CodecLemmas
 import Anndb.Generated
 /-!
@@ -21,9 +22,15 @@ engine ties to the real `badgerWAL` *and* whose specification `Mem` it ties to e
 * `reopen_changes_nothing` — dropping all caches (`NewBadgerWAL` over the same database) changes
   neither the abstract state nor the invariant.
 
-Not covered by a theorem (tied by the `wal` engine only): `DeleteGroup`, a `Save` that carries a
-snapshot *and* entries (etcd/raft does not produce one), batches that start below the first index,
-and the size-limited `Entries` read.
+* `entries_agree` — in every such state, for every window `first ≤ lo < hi ≤ last + 1` and every
+  size limit, `Entries` returns exactly the list `MemoryStorage.Entries` returns (the single-key
+  read for a window of one, the prefix scan cut at `hi` and at the size limit otherwise), and at or
+  below the compacted prefix both refuse with `ErrCompacted`;
+* `delete_group_leaves_nothing` — `DeleteGroup` leaves none of the group's keys and a reopen
+  afterwards is a fresh store (with `isolation_batch`: and touches no other group's keys).
+
+Not covered by a theorem (tied by the `wal` engine only): a `Save` that carries a snapshot *and*
+entries (etcd/raft does not produce one) and batches that start below the first index.
 -/
 namespace Anndb.C06
 open Anndb.Wal Anndb.WalKeys Anndb.Codec
@@ -150,6 +157,21 @@ theorem reads_agree (w : Wal) (h : WF w) (i : Nat) :
     w.snapshot = (abs w).snap ∧ w.hardState = (abs w).hs :=
   ⟨firstIndex_refines w h, lastIndex_refines w h, term_refines w h i, snapshot_refines w h, rfl⟩
 
+/-- **C06 (the size-limited read).** -/
+theorem entries_agree (w : Wal) (h : WF w) (lo hi maxSize : Nat)
+    (hlo : (abs w).firstIndex ≤ lo) (hlt : lo < hi) (hhi : hi ≤ (abs w).lastIndex + 1) :
+    ∃ es w', w.entries lo hi maxSize = .ok (es, w') ∧ (abs w).entries lo hi maxSize = .ok es
+      ∧ w'.disk = w.disk ∧ WF w' := entries_refines w h lo hi maxSize hlo hlt hhi
+
+theorem entries_below_first_refused (w : Wal) (h : WF w) (lo hi maxSize : Nat) (hlo : lo < (abs w).firstIndex) :
+    w.entries lo hi maxSize = .error .compacted ∧ (abs w).entries lo hi maxSize = .error .compacted :=
+  entries_compacted w h lo hi maxSize hlo
+
+/-- **C06 (`DeleteGroup`).** -/
+theorem delete_group_leaves_nothing (w : Wal) :
+    (Wal.deleteGroup w).disk = ⟨[], none, none⟩ ∧ Wal.open_ (Wal.deleteGroup w).disk = Wal.fresh :=
+  ⟨deleteGroup_erases w, open_after_deleteGroup w⟩
+
 /-- **C06 (across reopen).** -/
 theorem reopen_changes_nothing (w : Wal) (h : WF w) :
     WF (Wal.open_ w.disk) ∧ abs (Wal.open_ w.disk) = abs w := reopen_refines w h
@@ -169,6 +191,20 @@ example : (runM Mem.init demoHistory).map (fun m => (m.firstIndex, m.lastIndex, 
 
 example : (runW Wal.fresh demoHistory).map (fun w => w.disk.ents.map (·.index)) = some [9, 10] := by
   decide
+
+/-- non-vacuity of `entries_agree`: a store holding entries 10..13 of sizes 1, 4, 4, 1; the window
+[11, 14) under a limit of 6 is cut after entry 11 (1 + 4 + 4 > 6 … the scan stops at 12), a
+limit of 0 still yields one entry -/
+def demoReads : List WOp := demoHistory ++ [.append ⟨3, 0, 9⟩ [⟨11, 3, 17, 4⟩, ⟨12, 3, 18, 4⟩, ⟨13, 3, 19, 1⟩]]
+
+example : (runW Wal.fresh demoReads).map (fun w =>
+      ((w.entries 10 14 6).toOption.map (·.1.map (·.index)), (w.entries 11 14 0).toOption.map (·.1.map (·.index)),
+       (w.entries 11 14 100).toOption.map (·.1.map (·.index)), (w.entries 12 13 0).toOption.map (·.1.map (·.index))))
+    = some (some [10, 11], some [11], some [11, 12, 13], some [12]) := by decide
+
+example : (runM Mem.init demoReads).map (fun m =>
+      ((m.entries 10 14 6).toOption.map (·.map (·.index)), (m.entries 11 14 0).toOption.map (·.map (·.index))))
+    = some (some [10, 11], some [11]) := by decide
 
 /-- the key layout in the code is the one modelled (regenerated facts) -/
 theorem key_layout_in_code :
